@@ -394,41 +394,51 @@ void h_##fn(void) \
 H_BITOP(register_bit_set)
 H_BITOP(register_bit_clear)
 
-/* A second register g (handle in_gi != in_idx) of the same table and the same
- * area, not sharing storage words with register in_idx.  (A register of
- * another area has its words in another object, which no assigns clause of
- * the operations reaches.) */
-#define RT_SECOND() \
-  IN(uint32_t, in_gi) \
-  ASSUME(RT_INIT(t) && !RT_DURING(t) && in_gi < in_entries && in_gi != in_idx); \
-  { RT_ENTRY(gent, a, in_g) t->entry[in_gi] = gent; } \
-  if (in_idx < in_entries) ASSUME(rt_disjoint(t, in_idx, in_gi));
+/* sanitise: a table of 0..RT_SAN_EMAX registers in one or two areas, every
+ * type, constraint kind (no always-fail), bound, default, flag word and --
+ * the point -- ARBITRARY storage content; g_reg is an arbitrary handle. */
+RegisterHandle g_reg;
 
-/* Step obligations of the invariant for one checked operation OP on register
- * in_idx (the call is replaced by the operation's contract):
- *   Inv(g) before ==> Inv(g) after for every other register g -- Inv(g) is a
- *   function of entry g (no operation assigns the entry array) and of g's
- *   words, so the obligation is "the words of g are unchanged";
- *   the register the operation wrote satisfies its constraint: Inv(in_idx);
- *   a refused operation leaves every word unchanged (ghost cell in either
- *   area or elsewhere), hence every Inv. */
-#define H_C05_STEP(name, OPCALL) \
-void name(void) \
-{ \
-  RT_TABLE() \
-  RT_VALUE(v) \
-  RT_SECOND() \
-  g_old_bits = RT_ADDRESSED(t, in_idx) ? rt_bits(t, in_idx) : 0u; \
-  const uint64_t g_bits_before = rt_bits(t, in_gi); \
-  const RegisterAtom cell_before = *g_cell; \
-  RegisterAccess s = OPCALL; \
-  CHECK(rt_bits(t, in_gi) == g_bits_before, "the words of every other register g are unchanged (Inv(g) preserved)"); \
-  CHECK(IMPLIES(s.code == REG_ACCESS_SUCCESS, RT_ADDRESSED(t, in_idx) && rt_inv(t, in_idx)), \
-        "the register the operation wrote satisfies its constraint"); \
-  CHECK(IMPLIES(s.code != REG_ACCESS_SUCCESS, *g_cell == cell_before), "a refused operation leaves every word unchanged"); \
-  VERIF_CANARY(); \
+#define RT_SAN_ENTRY(i, pfx) \
+  if ((i) < in_entries) { \
+    IN(_Bool, pfx##_in_b) \
+    RegisterArea *ea = pfx##_in_b ? b : area_a; \
+    RT_ENTRY(ent, ea, pfx) \
+    ASSUME(pfx##_check != REGV_TYPE_FAIL); \
+    t->entry[i] = ent; \
+  }
+
+void h_register_sanitise(void)
+{
+  GHOST_HAVOC();
+  IN(uint16_t, in_flags) IN(uint32_t, in_entries) IN(uint16_t, in_areas) IN(uint32_t, in_reg)
+  IN(uint8_t, in_wr_verdict) IN(uint8_t, in_rd_verdict) IN(uint32_t, in_wr_address) IN(uint32_t, in_rd_address)
+  IN(_Bool, in_cell_in_b)
+  st_wr_verdict = in_wr_verdict; st_rd_verdict = in_rd_verdict;
+  st_wr_address = in_wr_address; st_rd_address = in_rd_address;
+  RT_NATIVE_SEED()
+  ASSUME(in_entries <= RT_SAN_EMAX);
+  RegisterArea *area_a, *b;
+  { RT_AREA(a, in_a) area_a = a; }
+  { RT_AREA(a, in_b) b = a; }
+  RT_ENTRY_BLOCK(in_entry_block, in_entries)
+  RegisterTable tab; RegisterTable *t = &tab;
+  t->flags = in_flags; t->areas = in_areas; t->area = area_a; t->entries = in_entries; t->entry = in_entry_block;
+  if ((in_flags & REG_TF_INITIALISED) != 0) {
+    RT_SAN_ENTRY(0u, in_e0)
+#if RT_SAN_EMAX >= 2
+    RT_SAN_ENTRY(1u, in_e1)
+#endif
+#if RT_SAN_EMAX >= 3
+    RT_SAN_ENTRY(2u, in_e2)
+#endif
+    ASSUME(RT_SAN_PAIRS(RT_SAN_PAIR_OK));
+  } else {
+    IN(int, in_entry_null) if (in_entry_null) t->entry = (RegisterEntry *)0;
+  }
+  g_reg = in_reg;
+  g_old_bits = (RT_INIT(t) && g_reg < t->entries) ? rt_bits(t, g_reg) : 0u;
+  g_cell = (in_cell_in_b && g_k < b->size) ? &b->mem[g_k] : ((g_k < area_a->size) ? &area_a->mem[g_k] : &rt_elsewhere);
+  register_sanitise(t);
+  VERIF_CANARY();
 }
-
-H_C05_STEP(h_c05_step_set, register_set(t, in_idx, v))
-H_C05_STEP(h_c05_step_bit_set, register_bit_set(t, in_idx, v))
-H_C05_STEP(h_c05_step_bit_clear, register_bit_clear(t, in_idx, v))
